@@ -376,7 +376,10 @@ class Session:
         self.outs.append(o)
         self.nsent = getattr(self, 'nsent', 0) + 1
         if o.startswith(('<no output', 'hang', 'thread ', 'deadlock')) or self.nsent > 20000:
-            raise SessionAbort(o)
+            e = SessionAbort(o)
+            e.lines = list(self.lines)
+            e.outs = list(self.outs)
+            raise e
         return o
 
     def close(self):
